@@ -62,6 +62,14 @@ def run(tier, seed):
         scn = S.random_float_scenario(rng2, metric=FAMILY[i % 5], n=12, nq=40, lattice=False, mode="metric", classes=4, dim=2, copies=False)
         scn["reload_alts"] = True
         items.append(scn)
+    # the same relations through the library's pre-computation routine and a distance file, small-magnitude features included
+    # (a squared distance of 1e-6 is as good an arc weight as a log-distance of 0.1)
+    rng3 = random.Random(seed * 1000003 + 1101)
+    for i in range(150 if thorough else 45):
+        scn = S.random_float_scenario(rng3, metric=FAMILY[i % 5], n=rng3.randrange(5, 13), nq=rng3.randrange(3, 8), lattice=False, mode=("prefile" if i % 3 else "metric"), classes=rng3.choice([2, 3, 4]), copies=False)
+        scn["Z"] = (__import__("numpy").array(scn["Z"]) * (0.01, 0.002, 0.0005)[i % 3]).tolist()
+        scn["alt_modes"] = True
+        items.append(scn)
     judged = []
     for scn in items:
         base, why = S.run_scenario(scn)
@@ -91,7 +99,7 @@ def run(tier, seed):
             }
             nperm += 1
         # (ii) the mutually monotone Euclidean family on the same data: compare only when the rank matrices coincide
-        if scn["mode"] == "metric" and scn["metric"] in FAMILY:
+        if (scn["mode"] == "metric" or scn.get("alt_modes")) and scn["metric"] in FAMILY:
             alts = []
             for met in FAMILY:
                 if met == scn["metric"]:
